@@ -9,7 +9,10 @@ import (
 	"strings"
 
 	"github.com/z7zmey/php-parser/pkg/ast"
+	"github.com/z7zmey/php-parser/pkg/conf"
+	"github.com/z7zmey/php-parser/pkg/errors"
 	"github.com/z7zmey/php-parser/pkg/token"
+	"github.com/z7zmey/php-parser/pkg/verifbridge"
 )
 
 func init() {
@@ -73,7 +76,7 @@ func evalC07(src []byte, cfg string) (o Outcome) {
 			o.Fails = append(o.Fails, Failure{Site: "print-panic", Kind: "input", Config: vs, Detail: pan})
 			continue
 		}
-		if got != want {
+		if got != want && !onlySourceTokens(src, a, b, po.Root, got) {
 			i := firstDiff([]byte(got), []byte(want))
 			lo := maxInt(0, i-16)
 			kind := classifyInvention(po.Root)
@@ -90,6 +93,129 @@ func evalC07(src []byte, cfg string) (o Outcome) {
 	}
 	o.Nontrivial = true
 	return
+}
+
+// srcPiece: a token or free-floating token of the source as the real scanner cuts it.
+type srcPiece struct {
+	S, E int
+	Text string
+}
+
+func lexPieces(src []byte, major, minor uint64) (ps []srcPiece, ok bool) {
+	defer func() {
+		if e := recover(); e != nil {
+			ok = false
+		}
+	}()
+	lx := verifbridge.NewLexer(src, conf.Config{Version: ver(major, minor), ErrorHandlerFunc: func(e *errors.Error) {}})
+	for i := 0; i < len(src)+16; i++ {
+		t := lx.Lex()
+		for _, f := range t.FreeFloating {
+			if f.Position != nil {
+				ps = append(ps, srcPiece{f.Position.StartPos, f.Position.EndPos, string(f.Value)})
+			}
+		}
+		if t.ID <= 0 {
+			return ps, true
+		}
+		if t.Position != nil {
+			v := string(t.Value)
+			// the scanner folds `;`, blanks and the close tag into one token; PHP's tokens are `;` and `?>`
+			if k := strings.Index(v, "?>"); k > 0 && v[0] == ';' {
+				ps = append(ps, srcPiece{t.Position.StartPos, t.Position.StartPos + 1, ";"})
+				ps = append(ps, srcPiece{t.Position.StartPos + k, t.Position.EndPos, v[k:]})
+			} else {
+				ps = append(ps, srcPiece{t.Position.StartPos, t.Position.EndPos, v})
+			}
+		}
+	}
+	return ps, false
+}
+
+// onlySourceTokens decides the property as stated when the printed text is not simply the tree's
+// tokens: the printed text must be the tree's tokens in source order with, between two of them,
+// only text that matches — token by token, in order, each source token used at most once — source
+// tokens lying between those two in the source (the printer's canonical lexeme standing where the
+// dropped source token stood, e.g. `?>` between two inline-HTML nodes whose PHP block was dropped),
+// or a single separating blank.
+func onlySourceTokens(src []byte, major, minor uint64, root ast.Vertex, got string) bool {
+	pieces, ok := lexPieces(src, major, minor)
+	if !ok {
+		return false
+	}
+	type tk struct {
+		s, e int
+		text string
+	}
+	var ts []tk
+	for _, t := range allTokens(root) {
+		if t.Position == nil {
+			if len(t.Value) == 0 && len(t.FreeFloating) == 0 {
+				continue
+			}
+			return false
+		}
+		s := t.Position.StartPos
+		var b strings.Builder
+		for _, ff := range t.FreeFloating {
+			if ff.Position != nil && ff.Position.StartPos < s {
+				s = ff.Position.StartPos
+			}
+			b.Write(ff.Value)
+		}
+		b.Write(t.Value)
+		ts = append(ts, tk{s, t.Position.EndPos, b.String()})
+	}
+	sort.SliceStable(ts, func(i, j int) bool { return ts[i].s < ts[j].s })
+	// insertion x standing between source offsets [lo, hi): match against the source pieces there
+	next := 0 // index into pieces: each source token at most once, in order
+	matchGap := func(x string, lo, hi int) bool {
+		for {
+			x = strings.TrimLeft(x, " ")
+			if x == "" {
+				return true
+			}
+			found := false
+			for next < len(pieces) {
+				p := pieces[next]
+				next++
+				if p.S < lo {
+					continue
+				}
+				if p.E > hi {
+					return false
+				}
+				pt := strings.TrimSpace(p.Text)
+				if pt != "" && strings.HasPrefix(x, pt) {
+					x = x[len(pt):]
+					found = true
+					break
+				}
+			}
+			if !found {
+				return false
+			}
+		}
+	}
+	i, prevEnd := 0, 0
+	for _, t := range ts {
+		if t.text == "" {
+			continue
+		}
+		j := strings.Index(got[i:], t.text)
+		if j < 0 || j > 24 {
+			return false
+		}
+		if j > 0 && !matchGap(got[i:i+j], prevEnd, t.s) {
+			return false
+		}
+		i += j + len(t.text)
+		prevEnd = t.e
+	}
+	if i < len(got) && !matchGap(got[i:], prevEnd, len(src)) {
+		return false
+	}
+	return true
 }
 
 // classifyInvention names the first node kind that has a nil token field for which the printer has a default
@@ -229,7 +355,7 @@ func evalC07recover(src []byte, cfg string) (o Outcome) {
 }
 
 func oracleC07() *Result {
-	r := &Result{Rule: "(1) any input for which the real parser returns a tree together with errors (corpus / G-cfg sentences with a token deleted, inserted or the text truncated; G-bytes): the printed text equals the tree's own tokens with their free-floating text in offset order, no token object twice, no node shared. (2) valid statement lists (16 statement forms, random selections of 2..7) with one of 16 malformed statements inserted at every boundary, at top level, in a function body and in a brace block: the statements before it equal (tokens, positions) the parse of the prefix alone and, when >= 3 statements follow, the last statement is recovered. Non-trivial = distinct input with a recovered tree"}
+	r := &Result{Rule: "(1) any input for which the real parser returns a tree together with errors (corpus / G-cfg sentences with a token deleted, inserted or the text truncated; G-bytes): the printed text equals the tree's own tokens with their free-floating text in offset order — or, where the printer put a canonical lexeme between two of them, that lexeme matches, in order and at most once each, source tokens that lie between the two in the source (real scanner's tokens; `; ?>` counted as `;` and `?>`) —, no token object twice, no node shared. (2) valid statement lists (16 statement forms, random selections of 2..7) with one of 16 malformed statements inserted at every boundary, at top level, in a function body and in a brace block: the statements before it equal (tokens, positions) the parse of the prefix alone and, when >= 3 statements follow, the last statement is recovered. Non-trivial = distinct input with a recovered tree"}
 	rng := newRand("C07")
 	versions := "5.6,7.4"
 	var tasks []Task
